@@ -51,4 +51,41 @@ var vfC01Spec = vlib.Spec[vfWProg]{
 	},
 }
 
-func TestVerif_C01(t *testing.T) { vlib.Both(t, vfC01Spec) }
+// A dense sweep over corruptions of the verified fields: one keystore, one export, then 16 imports of differently
+// corrupted copies into the other (empty) wallet; each must be rejected and leave that wallet empty.
+var vfC01SweepSpec = vlib.Spec[vfWProg]{
+	Prop: "C01", Name: "verified-field-corruption-sweep", Scale: 0.25, Min: 2,
+	Rule: "one keystore with 0-5 external and 0-5 internal keys (optionally after a passphrase change), exported once, then 16 imports into the other wallet of copies with one corruption each in crypto.privParams / crypto.cryptoKeyPrivEnc / crypto.masterHDPrivKeyEnc (bit flip at an independent byte and bit position, bit flip within the last 24 bytes, truncation, non-hex character, type change, removal), then an import of the untouched export; oracle: every corrupted copy is rejected, the target wallet stays equal to the model, the final import restores the exported keystore key by key; non-trivial = >=12 effective corruptions tried; distinct = distinct program JSON",
+	Gen: func(t *rapid.T) vfWProg {
+		p := vfWProg{PubA: vfPubPool[0], PubB: vfPubPool[1]}
+		p.Ops = append(p.Ops, vfWOp{K: "new", Seed: rapid.SliceOfN(rapid.Byte(), 32, 32).Draw(t, "seed"), Pass: "lit:" + vfPassPool[0], S: rapid.SampledFrom(vfRemarks).Draw(t, "remark")})
+		p.Ops = append(p.Ops, vfWOp{K: "next", N: rapid.IntRange(0, 5).Draw(t, "next")}, vfWOp{K: "next", Int: true, N: rapid.IntRange(0, 5).Draw(t, "nint")})
+		if rapid.Bool().Draw(t, "chpriv") {
+			p.Ops = append(p.Ops, vfWOp{K: "chpriv", Pass: "cur", New: "lit:" + vfPassPool[1]})
+		}
+		p.Ops = append(p.Ops, vfWOp{K: "export", Pass: "cur"})
+		for i := 0; i < 16; i++ {
+			p.Ops = append(p.Ops, vfWOp{K: "import", W: 1, Pass: "export", New: "auto", Tam: &vfTam{
+				Field: rapid.SampledFrom([]string{"crypto.privParams", "crypto.privParams", "crypto.cryptoKeyPrivEnc", "crypto.masterHDPrivKeyEnc"}).Draw(t, "field"),
+				Kind:  rapid.SampledFrom([]string{"bitflip", "bitflip", "bitflip", "tailflip", "tailflip", "truncate", "nonhex", "type", "remove"}).Draw(t, "kind"),
+				Arg:   rapid.IntRange(0, 400).Draw(t, "arg"), Bit: rapid.IntRange(0, 7).Draw(t, "bit")}})
+		}
+		p.Ops = append(p.Ops, vfWOp{K: "import", W: 1, Pass: "export", New: "auto"})
+		return p
+	},
+	Run: func(p vfWProg, c *vlib.Ctx) *vlib.Failure {
+		e, f := vfRunWallet(&p, c, &vfOpt{AtEnd: vfC01AtEnd})
+		if e != nil {
+			e.labels()
+			if e.st.tamperTried >= 12 {
+				c.NonTrivial()
+			}
+		}
+		return f
+	},
+}
+
+func TestVerif_C01(t *testing.T) {
+	t.Run("roundtrip", func(t *testing.T) { vlib.Both(t, vfC01Spec) })
+	t.Run("sweep", func(t *testing.T) { vlib.Both(t, vfC01SweepSpec) })
+}
